@@ -46,7 +46,10 @@ def _tx_dict(case):
 
 def _pycoin_tx(T, txd, amounts):
     ins = [T.TxIn(i["prev_hash"], i["prev_index"], i["script"], i["sequence"]) for i in txd["ins"]]
-    outs = [T.TxOut(o["value"], o["script"]) for o in txd["outs"]]
+    # equal outputs / inputs are the SAME object in the lists (txs_out = [out] * n, one `out` variable appended twice): what is
+    # hashed depends on positions and values, never on object identity
+    shared = {}
+    outs = [shared.setdefault((o["value"], o["script"]), T.TxOut(o["value"], o["script"])) for o in txd["outs"]]
     unspents = [T.TxOut(a, b"\x51") for a in amounts]
     return T(txd["version"], ins, outs, txd["locktime"], unspents=unspents)
 
@@ -266,7 +269,10 @@ def o_history(case):
                 raise Violation("sighash:modifies-tx", "transaction changed by signature-hash computation")
         elif op[0] == "out-value" and txd["outs"]:
             k = op[1] % len(txd["outs"])
-            txd["outs"][k]["value"] = op[2]
+            # an object that stands at several positions is edited at all of them (that is what editing it in place means)
+            for j, o in enumerate(tx.txs_out):
+                if o is tx.txs_out[k]:
+                    txd["outs"][j]["value"] = op[2]
             tx.txs_out[k].coin_value = op[2]
             sc = T.SolutionChecker(tx)
             labels.append("mutated")
@@ -424,8 +430,17 @@ def _txs():
     tin = st.tuples(h32, u32, script, u32).map(list)
     tout = st.tuples(value, script).map(list)
     from gen.common import weighted
+    def with_repeats(outs, picks):
+        # some outputs repeat an earlier one exactly (a transaction paying the same output several times)
+        outs = list(outs)
+        for a, b in picks:
+            if len(outs) >= 2:
+                outs[b % len(outs)] = outs[a % len(outs)]
+        return outs
+    outs_s = st.builds(with_repeats, st.lists(tout, min_size=0, max_size=6),
+                       st.one_of(st.just([]), st.just([]), st.lists(st.tuples(st.integers(0, 5), st.integers(0, 5)), min_size=1, max_size=3)))
     small = st.fixed_dictionaries({"version": u32, "locktime": u32, "ins": st.lists(tin, min_size=1, max_size=6),
-                                   "outs": st.lists(tout, min_size=0, max_size=6), "n_in": st.integers(0, 5),
+                                   "outs": outs_s, "n_in": st.integers(0, 5),
                                    "amount": value})
     # input / output counts and input indices around 253 (compact-size escape), 256 / 257 (one byte; CPython's shared
     # small integers end at 256) and beyond
